@@ -340,11 +340,21 @@ def _context_mutators(ctx) -> dict[str, FuncInfo]:
     return out
 
 
+PROCESS_WIDE_SETTERS = {
+    "sys.setrecursionlimit", "sys.setswitchinterval", "sys.settrace", "sys.setprofile", "os.chdir", "os.umask", "os.putenv", "os.unsetenv",
+    "locale.setlocale", "signal.signal", "socket.setdefaulttimeout", "random.seed", "warnings.simplefilter", "warnings.filterwarnings",
+    "threading.settrace", "threading.stack_size", "gc.disable", "gc.enable", "gc.set_threshold", "decimal.setcontext", "resource.setrlimit",
+    "faulthandler.enable", "tempfile.tempdir",
+}
+PROCESS_WIDE_OBJECTS = {"os.environ", "sys.path", "sys.modules", "sys.stdout", "sys.stderr", "sys.argv", "tempfile.tempdir"}
+
+
 def rule_worker_isolation(ctx, rep):
     rep.rule(
         "R-WORKER-ISOLATION",
         "from the per-file worker (_process_file and everything it reaches) no mutator of CodemodExecutionContext is called, no "
-        "attribute of the shared context is assigned, and no module- or class-level state is written",
+        "attribute of the shared context is assigned, no module- or class-level state is written, and no process-wide setting "
+        "(sys.setrecursionlimit, os.chdir, os.environ, locale, warnings filters, ...) is changed",
         min_instances=50,
     )
     muts = _context_mutators(ctx)
@@ -384,6 +394,17 @@ def rule_worker_isolation(ctx, rep):
         for n in walk_no_nested(fn.node):
             if isinstance(n, ast.Global):
                 problems.append((n, f"`global {', '.join(n.names)}`"))
+            # interpreter- / process-wide settings: every worker thread shares them, so set-and-restore around one file's work races
+            # with the worker of another file (the second file then runs under the restored value, or the first under the raised one)
+            if isinstance(n, ast.Call):
+                cq_ = r.callee_qname(n) or call_name(n) or ""
+                if cq_ in PROCESS_WIDE_SETTERS:
+                    problems.append((n, f"`{unparse(n)[:50]}` changes a process-wide setting from a worker thread"))
+            if isinstance(n, (ast.Assign, ast.AugAssign, ast.Delete)):
+                for t in (n.targets if not isinstance(n, ast.AugAssign) else [n.target]):
+                    tt = t.value if isinstance(t, ast.Subscript) else t
+                    if isinstance(tt, ast.Attribute) and (ctx.prog.resolve_expr_name(fn.module, tt) or unparse(tt)) in PROCESS_WIDE_OBJECTS:
+                        problems.append((n, f"`{unparse(t)[:40]}` is process-wide state written from a worker thread"))
             if isinstance(n, (ast.Assign, ast.AugAssign)):
                 tg = n.targets if isinstance(n, ast.Assign) else [n.target]
                 for t in tg:
